@@ -86,6 +86,13 @@ def run_sem(pid, fmt):
     # ---------------- R: recorded executions on random cases, judged by TLC
     n_schemas = 250 if t == "quick" else 6000
     cases = semcheck.gen_pairs(rnd, fmt, n_schemas) + semcheck.gen_pairs(rnd, fmt, n_schemas // 2, profile="shared")
+    if fmt == "cbor":
+        # CBOR-only constructs (tags, major types, non-text keys, big numbers), and encoding independence: a third of the
+        # documents is encoded with random non-preferred choices (argument widths, indefinite lengths, float widths)
+        cases += semcheck.gen_pairs(rnd, fmt, n_schemas, profile="cborx")
+        for c in cases:
+            if rnd.random() < 0.33:
+                c["bytes"] = list(C.encode(c["val"], C.Choices(rnd, p=rnd.choice([0.3, 0.7]))))
     ops, results = semcheck.run_cases(cases)
     events = []
     evmeta = []
